@@ -6,7 +6,7 @@ neither relies on thread-local state; deterministic; bounded by the number of li
 import sys
 
 
-def run_interrupted(fa, fb, k, in_scope):
+def run_interrupted(fa, fb, k, in_scope, when=None):
     """returns (fired, n_events, result_of_fa, result_of_fb)"""
     count = [0]
     fired = [False]
@@ -15,7 +15,7 @@ def run_interrupted(fa, fb, k, in_scope):
     def tracer(frame, event, arg):
         if not in_scope(frame.f_code.co_filename):
             return None
-        if event == 'line':
+        if event == 'line' and (when is None or when()):
             if count[0] == k and not fired[0]:
                 fired[0] = True
                 sys.settrace(None)
@@ -34,14 +34,16 @@ def run_interrupted(fa, fb, k, in_scope):
     return fired[0], count[0], out[0], out[1]
 
 
-def every_point(make, in_scope, limit=400):
+def every_point(make, in_scope, limit=400, when_of=None):
     """`make()` -> (fa, fb, judge): fresh state per interleaving point; yields (k, judge()) for k = 0, 1, … while the
     interruption point exists"""
     k = 0
     while k < limit:
-        fa, fb, judge = make()
-        fired, n, _, _ = run_interrupted(fa, fb, k, in_scope)
+        made = make()
+        fa, fb, judge = made[:3]
+        fired, n, _, _ = run_interrupted(fa, fb, k, in_scope, made[3] if len(made) > 3 else None)
         if not fired:
+            judge()             # (lets the scenario clean up after itself; the result is that of an undisturbed run)
             return
         yield k, judge()
         k += 1
